@@ -115,6 +115,7 @@ public:
         for (auto &t : spec.tasks)
             for (auto &op : t)
                 if (op[0] == 'G' || op[0] == 'g') updates_ = true;
+        if (updates_) s.setClassPrefix("upd-");
     }
 
     void runTask(int t) override {
@@ -245,7 +246,7 @@ public:
             if (!v.deletedTick) v.deletedTick = now();
             if (v.readers > 0) {
                 s_->viol(v.superseded ? "shared-suffix-freed-under-stale-reader" : "slice-freed-under-reader",
-                         "slice %d of version %d (key %d, anchor %d%s) was freed by task %d while %d reader(s) hold that entry", sliceId, m, v.key,
+                         "slice %d of version %d (key %d, anchor %d%s) was freed by task %d while %d reader(s) still hold a read lock on that entry", sliceId, m, v.key,
                          v.fileno, v.superseded ? ", superseded by an update" : "", s_->current(), v.readers);
                 return;
             }
